@@ -654,7 +654,7 @@ def _row_eq(a, b):
 
 def _gen_flags():
     try:
-        src = open(os.path.join(common.LEAN, "ESRVerif", "Generated", "Codelen.lean")).read()
+        src = open(os.path.join(common.LEAN, "ESRVerif", "Generated", "FisherAlias.lean")).read()
     except Exception:
         return {}
     out = {}
